@@ -476,6 +476,27 @@ func (p *Path) NilFacts() map[int]bool { return p.st.nilF }
 // TruthFacts lists recorded truth facts.
 func (p *Path) TruthFacts() map[int]bool { return p.st.truth }
 
+// FieldOf returns the value a field of an allocation holds at the end of the path: the last value assigned through the
+// allocation (entry := new(T); entry.K = k) or, failing that, the value given in its composite literal.
+func (p *Path) FieldOf(v *Val, name string) *Val {
+	if v == nil {
+		return nil
+	}
+	base := v
+	if v.Kind == KAddr && v.Src != nil {
+		base = v.Src
+	}
+	for _, loc := range []string{v.Loc() + "." + name, base.Loc() + "." + name} {
+		if hv, ok := p.st.heap[loc]; ok && hv != nil && p.st.written[loc] {
+			return hv
+		}
+	}
+	if base.Fields != nil {
+		return base.Fields[name]
+	}
+	return nil
+}
+
 // Heap returns the final value stored at a heap location, if written or read on the path.
 func (p *Path) Heap(loc string) *Val { return p.st.heap[loc] }
 
